@@ -122,12 +122,12 @@ func setupRoutes(module *ast.Module, filePath string, forceInterpreter ...bool) 
 		}
 	}
 
-	// A declared query parameter whose default is not a literal needs an
-	// expression evaluator at request time. The compiled handler has none: it
-	// applied literal defaults only and left such a parameter unbound, so
-	// `? m: int = 1 + 2` answered {"m":3} interpreted and 500 compiled.
-	if useCompiler && moduleHasComputedQueryDefault(module) {
-		printInfo("A query parameter default is a computed expression, using interpreter mode")
+	// A declared query parameter or type field whose default is not a literal
+	// needs an expression evaluator at request time. The compiled handler has
+	// none: it applies literal defaults only, so `? m: int = 1 + 2` answered
+	// {"m":3} interpreted and 500 compiled.
+	if useCompiler && moduleHasComputedDefault(module) {
+		printInfo("A declared default is a computed expression, using interpreter mode")
 		useCompiler = false
 	}
 
@@ -232,20 +232,35 @@ func setupRoutes(module *ast.Module, filePath string, forceInterpreter ...bool) 
 	return useCompiler, compiledRoutes, wsServer, router, nil
 }
 
-// moduleHasComputedQueryDefault reports whether some route declares a query
-// parameter whose default is not a plain literal (see evalLiteralExpr).
-func moduleHasComputedQueryDefault(module *ast.Module) bool {
+// moduleHasComputedDefault reports whether some route declares a query
+// parameter, or some type a field, whose default is not a plain literal
+// (see evalLiteralExpr).
+func moduleHasComputedDefault(module *ast.Module) bool {
 	for _, item := range module.Items {
-		route, ok := item.(*ast.Route)
-		if !ok || route == nil {
-			continue
-		}
-		for _, decl := range route.QueryParams {
-			if decl.Default == nil {
+		switch it := item.(type) {
+		case *ast.Route:
+			if it == nil {
 				continue
 			}
-			if _, isLiteral := evalLiteralExpr(decl.Default); !isLiteral {
-				return true
+			for _, decl := range it.QueryParams {
+				if decl.Default == nil {
+					continue
+				}
+				if _, isLiteral := evalLiteralExpr(decl.Default); !isLiteral {
+					return true
+				}
+			}
+		case *ast.TypeDef:
+			if it == nil {
+				continue
+			}
+			for _, field := range it.Fields {
+				if field.Default == nil {
+					continue
+				}
+				if _, isLiteral := evalLiteralExpr(field.Default); !isLiteral {
+					return true
+				}
 			}
 		}
 	}
